@@ -186,19 +186,30 @@ def recheck(case):
     return fs[0] if fs else None
 
 
+def is_flat(b):
+    """>= 3 conditionals sharing one antecedent (independent defaults in one layer)"""
+    antes = {}
+    for _, _c, a in b["base"]:
+        antes[json.dumps(a)] = antes.get(json.dumps(a), 0) + 1
+    return max(antes.values(), default=0) >= 3
+
+
 def run(ctx):
     from check import pmap
 
     quick = ctx.tier == "quick"
     rng = ctx.rng
     cases = [c for c in answers.load_corpus("C14")]
-    bases = answers.gen_cases(ctx, 36 if quick else 500, (2, 4), (2, 5), [False, False, True], ties=0.4, q_per=4, consts=0.05)
+    bases = answers.gen_cases(ctx, 36 if quick else 500, (2, 4), (2, 5), [False, False, True], ties=0.4, q_per=4, consts=0.05, flat=0.3)
     for i, b in enumerate(bases):
         b = {k: v for k, v in b.items() if not k.startswith("_")}
         cfgs = [c for c in CFGS if not (b["weakly"] and c[0] == "c-inference")]
         system, pm = cfgs[i % len(cfgs)] if i < 2 * len(cfgs) else rng.choice(cfgs[:5])
-        cases.append({"n": b["n"], "weakly": b["weakly"], "base": b["base"], "queries": b["queries"], "system": system, "pmaxsat": pm,
-                      "budget": rng.choice(BUDGETS), "max_runs": 60 if quick else 400})
+        # bases with several incomparable correction sets per layer (long optimizer enumerations) are run with every enumerating operator
+        flat = is_flat(b)
+        for system, pm in (cfgs[:4] if flat else [(system, pm)]):
+            cases.append({"n": b["n"], "weakly": b["weakly"], "base": b["base"], "queries": b["queries"], "system": system, "pmaxsat": pm,
+                          "budget": rng.choice(BUDGETS), "max_runs": 60 if quick else 400})
     impls = pmap(impl_eval, cases, ctx.procs)
     for c, impl in zip(cases, impls):
         runs = impl.get("runs", [])
